@@ -111,3 +111,31 @@ def wire_since(ip, old):
     """byte strings handed to sendall since the snapshot `old`"""
     n0 = len(old.ghost.get('wire_log', []))
     return ip.st.ghost.get('wire_log', [])[n0:]
+
+
+# ------------------------------------------------------------------------------- C11 / C12 monitors
+def wire_has_close(st):
+    """ghost $closes > 0: a Close frame of this connection is on the wire"""
+    if 'wc' not in st.ghost:
+        st.ghost['wc'] = fresh('wire_has_close0', B)
+    return st.ghost['wc']
+
+
+def I12(st, W, snap=None):
+    """monitor invariant protected by the session lock (C12): a Close on the wire implies the
+    websocket is closing or closed - so that every later write is refused"""
+    s = snap or st
+    return Implies(wire_has_close(st), Or(s.get(W.state, 'closing'), s.get(W.state, 'closed')))
+
+
+def install_flag_monitor(ip, W):
+    """interference freedom (Owicki-Gries): every assignment to state.closing / state.closed made
+    OUTSIDE the lock must preserve I12, at the granularity of single attribute stores"""
+    st = ip.st
+    st.assume(I12(st, W))
+
+    def hook(st, ref, field):
+        if ref.oid == W.state.oid and field in ('closing', 'closed'):
+            locked = st.ghost[W.lock.key]['held'] > 0
+            st.oblige('C12:store-to-%s-preserves(Close on the wire => closing or closed)' % field, I12(st, W), tags=('C12',))
+    st.ghost['write_hook'] = hook
